@@ -181,7 +181,24 @@ def c10(ck, F, tier):
     guarded(ck, rp.footprint, F)
 
 
-PROPS = {"C08": c08, "C10": c10, "C29": c29, "C17": c17, "C01": c01, "C02": c02, "C03": c03, "C04": c04, "C23": c23, "C26": c26}
+def c28(ck, F, tier):
+    import rules_sel as rs
+    ck.explanation = (
+        "Static decision of the selection guards: (SEL-REPAIR) after every Model::delete_sheet issued by the user model (the "
+        "operation, undo and redo arms) every normal path to the end of that step writes the selected sheet or tests it "
+        "against the sheet count; (SEL-SHEET) every store into WorkbookView.sheet is validated by a dominating worksheet(idx) "
+        "lookup or is a clamp computed from the sheet count; (SEL-CELL) every store into WorksheetView.row/column/range is a "
+        "constant, a copy of a stored view field, or validated by is_valid_row / is_valid_column_number on the same value. "
+        "That the selected cell lies inside the selected range is a relation between runtime values and is not decided.")
+    ck.rule("SEL-REPAIR", "selection written or clamped after every sheet deletion", floor=3)
+    ck.rule("SEL-SHEET", "stores into WorkbookView.sheet are validated or clamps", floor=3)
+    ck.rule("SEL-CELL", "stores into WorksheetView.row/column/range are validated, copies or constants", floor=20)
+    guarded(ck, rs.sel_repair, F)
+    guarded(ck, rs.sel_sheet, F)
+    guarded(ck, rs.sel_cell, F)
+
+
+PROPS = {"C08": c08, "C28": c28, "C10": c10, "C29": c29, "C17": c17, "C01": c01, "C02": c02, "C03": c03, "C04": c04, "C23": c23, "C26": c26}
 
 
 def run(pid, tier):
